@@ -335,6 +335,18 @@ report, e.g. whitespace-only ones). -/
 theorem CaptureTie_report_sections (failed : Bool) (secs : List Sec) : reportSectionsGen failed secs = some secs := by
   cases failed <;> simp [reportSectionsGen, reportSections]
 
+/-- … and this holds for EVERY way a task can leave the protocol — it returned, it raised an ordinary exception or called
+`sys.exit()`, it was interrupted (`KeyboardInterrupt`, which also stops the build): each branch of
+`pytask_execute_task_protocol` builds its report through a constructor that hands over `task.report_sections`, and there is no
+other branch. -/
+theorem CaptureTie_report_sections_all (branch : String) (secs : List Sec)
+    (h : branch ∈ ["else", "Exception,SystemExit", "KeyboardInterrupt"]) : reportSectionsFor branch secs = some secs := by
+  simp only [List.mem_cons, List.not_mem_nil, or_false] at h
+  rcases h with rfl | rfl | rfl <;> simp [reportSectionsFor, protocolCtor, protocolReports, CaptureTie_report_sections]
+
+theorem CaptureTie_protocol_branches : protocolReports.map (fun e => e.1) = ["KeyboardInterrupt", "Exception,SystemExit", "else"] := by
+  decide
+
 /-! ### Non-vacuity: `Separate` holds for what `_get_multicapture` builds in a concrete process -/
 
 private def w0 : W := { os := { files := [[], [], []], fdt := [some 0, some 1, some 2] } }
